@@ -1127,6 +1127,32 @@ Proof.
   rewrite nth_view3 by assumption. reflexivity.
 Qed.
 
+(* ... and for every flat index i: the coefficient of element i is (i / inner) mod F,
+   NumPy's broadcasting of a length-F vector along the chosen axis *)
+Lemma apply_after_history_flat F calls t axis ip i d :
+  Forall (good_call F) calls -> calls <> [] -> good_arg N F t axis ->
+  takes_tensor_path (shape t) = true -> (i < length (data t))%nat ->
+  let vs := flat_map (vectors_of_call N) calls in
+  let f := ((i / v_inner (view_of t axis)) mod F)%nat in
+  exists out, apply N finv fint zero nv (acc_all N None calls) t axis ip = Ok out /\
+    nth i (a_vals out) d = fint (nth i (data t) 0) (col_mean N vs f) (veff N nv (col_var N vs f)).
+Proof.
+  intros H Hne G P Hi vs f.
+  pose proof (good_data_length F t axis G P) as Hlen.
+  pose proof (good_view F t axis G P) as Ev.
+  set (outer := Z.to_nat (prodZ (firstn (axis_pos (shape t) axis) (shape t)))) in *.
+  set (inner := Z.to_nat (prodZ (skipn (S (axis_pos (shape t) axis)) (shape t)))) in *.
+  assert (Einner : v_inner (view_of t axis) = inner) by (rewrite Ev; reflexivity).
+  assert (Eouter : v_outer (view_of t axis) = outer) by (rewrite Ev; reflexivity).
+  rewrite Hlen in Hi.
+  destruct (flat_index_decompose outer F inner i Hi) as (Ho & Hf & Hr & Ei).
+  unfold f. rewrite Einner.
+  destruct (apply_after_history_tensor_elem F calls t axis ip (i / inner / F) ((i / inner) mod F) (i mod inner) d
+              H Hne G P) as (out & E & V); try (rewrite ?Einner, ?Eouter; assumption).
+  exists out. split; [exact E|].
+  rewrite Einner in V. rewrite <- Ei in V. exact V.
+Qed.
+
 (* without statistics *)
 Lemma apply_nostats_local F t axis ip :
   good_arg N F t axis -> takes_tensor_path (shape t) = true ->
